@@ -22,8 +22,11 @@
     asset depend on the other assets processed before it; that is outside this model and is caught by the
     correspondence run. *)
 From Coq Require Import Permutation.
-From RP2V Require Import Base.Prelude Base.Time Base.Dec Base.Sorting Model.Types Model.Generated Model.Txn
-  Model.Matcher Model.Pipeline Model.Parser Model.Computed Model.MainRun Proofs.YearlyProofs Proofs.C17Proofs.
+From RP2V Require Import Base.Prelude Base.Time Base.Dec.
+From RP2V Require Import Base.Sorting Model.Types Model.Generated.
+From RP2V Require Import Model.Txn Model.Matcher Model.Pipeline.
+From RP2V Require Import Model.Parser Model.Computed Model.MainRun.
+From RP2V Require Import Proofs.YearlyProofs Proofs.C17Proofs.
 Open Scope Z_scope.
 
 (** (1) *)
